@@ -47,6 +47,8 @@ OBLIGATIONS = [
     "SkVerif.C13.shiftState_fresh",
     "SkVerif.C13.shift_equivariance_history_partial",
     "SkVerif.C13.hampel_not_shift_equivariant",
+    "SkVerif.C13.hampel_positional_at_origin_zero",
+    "SkVerif.C13.hampelPos_shift_equivariant",
 ]
 TRUSTED = [
     "hand-written model SkVerif/Model/SeriesTransform.lean of _deseasonalize.py, _detrend.py (+ the parts of PolynomialTrendForecaster/_SktimeForecaster it reaches), boxcox.py, adapt.py, compose.py, BaseTransformer.fit_transform, check_series, _hampel_filter",
@@ -865,7 +867,7 @@ def _gen_cdes(tier, rng, cases):
 
 
 def _gen_det(tier, rng, cases):
-    reps = 150 if tier == "quick" else 2500
+    reps = 300 if tier == "quick" else 2500
     for r in range(reps):
         deg = rng.choice([0, 1, 1])
         cfg = ["det", deg] if not (deg == 1 and rng.random() < 0.3) else ["det", 1, "default"]
@@ -998,7 +1000,7 @@ def _rand_cfg(rng):
 
 
 def _gen_random(tier, rng, cases, malformed=False):
-    reps = (500 if tier == "quick" else 9000) if not malformed else (150 if tier == "quick" else 2500)
+    reps = (1000 if tier == "quick" else 9000) if not malformed else (300 if tier == "quick" else 2500)
     for _ in range(reps):
         cfg = _rand_cfg(rng)
         sp = cfg[1] if cfg[0] in ("des", "cdes") else 2
